@@ -19,10 +19,17 @@ for d in sorted(glob.glob(os.path.join(HERE, "seeded", "*"))):
             meta["final"] = {"patch_applies_to_current_head": False, "note": r.stderr[-200:]}
         else:
             env = dict(os.environ, MOUETTE_REPO=wt)
-            r = subprocess.run("cd %s && ./check %s quick" % (HERE, prop), shell=True, capture_output=True, text=True, env=env)
-            lines = r.stdout.strip().split("\n")
-            mechs = [l.split("mechanism=")[1].split(" ")[0] for l in lines if l.startswith("VIOLATION") and "mechanism=" in l]
-            meta["final"] = {"exit": r.returncode, "mechanisms": mechs[:8], "last": lines[-1][:160]}
+            checks = os.environ.get("SEED_CHECKS", prop).split(",")
+            meta["final"] = {"exit": 0, "mechanisms": [], "last": "", "checks": checks}
+            for c in checks:
+                r = subprocess.run("cd %s && ./check %s quick" % (HERE, c), shell=True, capture_output=True, text=True, env=env)
+                lines = r.stdout.strip().split("\n")
+                mechs = [c + ":" + l.split("mechanism=")[1].split(" ")[0] if c != prop else l.split("mechanism=")[1].split(" ")[0]
+                         for l in lines if l.startswith("VIOLATION") and "mechanism=" in l]
+                meta["final"]["mechanisms"] += mechs[:8]
+                meta["final"]["last"] = lines[-1][:160]
+                if r.returncode == 1:
+                    meta["final"]["exit"] = 1
         json.dump(meta, open(mp, "w"), indent=1)
         print(name, meta["final"].get("exit"), meta["final"].get("mechanisms", [])[:2])
     finally:
